@@ -798,13 +798,20 @@ def replay_table(w):
 #     slices, splitlines, rsplit, strip                  pieces with the receiver's tags
 # Obligation: the result is not (markup and tainted).
 
-def atom(name, markup, taint):
+def atom(name, markup, taint, levels=()):
+    """levels: ghost escape levels of the tracked text contained in this string (0 = the characters themselves,
+    1 = escaped once, ...); only the filter's main value is tracked (C23.indent.escaping_consistent)"""
     tags = {"text"}
     if markup:
         tags.add("markup")
     if taint:
         tags.add("taint")
+    tags.update(f"lvl:{n}" for n in levels)
     return fresh(name, "obj", tags)
+
+
+def levels_of(v):
+    return sorted(int(t[4:]) for t in v.tags if t.startswith("lvl:")) if isinstance(v, Sym) else []
 
 
 def is_text(v):
@@ -822,11 +829,16 @@ def tainted(v):
 def combine(name, recv_markup, parts):
     """result of a combinator whose markup-ness is recv_markup, over text operands `parts`"""
     parts = [x for x in parts if is_text(x)]
+    lv = set()
     if recv_markup:
         t = any(tainted(x) for x in parts if is_markup(x))
+        for x in parts:  # plain operands of a markup combinator are escaped once more
+            lv.update(levels_of(x) if is_markup(x) else [n + 1 for n in levels_of(x)])
     else:
         t = any(tainted(x) for x in parts)
-    return atom(name, recv_markup, t)
+        for x in parts:
+            lv.update(levels_of(x))
+    return atom(name, recv_markup, t, lv)
 
 
 def install_markup_algebra(I, nlines):
@@ -869,15 +881,15 @@ def install_markup_algebra(I, nlines):
         if name == "replace":
             return [(st, combine("replaced", is_markup(recv), [recv] + list(margs[:2])))]
         if name == "splitlines":
-            return [(st, st.alloc(HList(items=[atom(f"line{i}", is_markup(recv), tainted(recv)) for i in range(nlines)])))]
+            return [(st, st.alloc(HList(items=[atom(f"line{i}", is_markup(recv), tainted(recv), levels_of(recv)) for i in range(nlines)])))]
         if name == "rsplit":
             out = []
             for k in (1, 2):
                 s1 = st.fork()
-                out.append((s1, s1.alloc(HList(items=[atom(f"part{i}", is_markup(recv), tainted(recv)) for i in range(k)]))))
+                out.append((s1, s1.alloc(HList(items=[atom(f"part{i}", is_markup(recv), tainted(recv), levels_of(recv)) for i in range(k)]))))
             return out
         if name in ("strip", "lower", "upper"):
-            return [(st, atom(name, is_markup(recv), tainted(recv)))]
+            return [(st, atom(name, is_markup(recv), tainted(recv), levels_of(recv)))]
         if name == "__html__" and is_markup(recv):
             return [(st, recv)]
         raise Unsupported(f"markup algebra: str.{name}", node)
@@ -919,20 +931,20 @@ def install_markup_algebra(I, nlines):
 
     I.specs["isinstance_obj"] = isinstance_obj
     I.specs["len_obj"] = lambda I_, st, args, kwargs, node: [(st, _nonneg(st))] if is_text(args[0]) else None
-    I.specs["getslice_obj"] = lambda I_, st, args, kwargs, node: [(st, atom("slice", is_markup(args[0]), tainted(args[0])))] if is_text(args[0]) else None
-    I.specs["str_obj"] = lambda I_, st, args, kwargs, node: [(st, atom("str", False, tainted(args[0])))] if is_text(args[0]) else None
+    I.specs["getslice_obj"] = lambda I_, st, args, kwargs, node: [(st, atom("slice", is_markup(args[0]), tainted(args[0]), levels_of(args[0])))] if is_text(args[0]) else None
+    I.specs["str_obj"] = lambda I_, st, args, kwargs, node: [(st, atom("str", False, tainted(args[0]), levels_of(args[0])))] if is_text(args[0]) else None
 
     def markup_ctor(I_, st, args, kwargs, node):
         v = args[0]
         if not is_text(v):
             return None
-        return [(st, atom("Markup", True, tainted(v)))]
+        return [(st, atom("Markup", True, tainted(v), levels_of(v)))]
 
     def esc(I_, st, args, kwargs, node):
         v = args[0]
         if is_markup(v):
             return [(st, v)]
-        return [(st, atom("escaped", True, False))]
+        return [(st, atom("escaped", True, False, [n + 1 for n in levels_of(v)]))]
 
     def soft(I_, st, args, kwargs, node):
         return [(st, args[0])]
@@ -947,7 +959,7 @@ def install_markup_algebra(I, nlines):
         out = []
         for k in (0, 1, 2):  # textwrap.wrap returns plain str pieces of the line
             s1 = st.fork()
-            out.append((s1, s1.alloc(HList(items=[atom(f"wrapped{i}", False, tainted(line)) for i in range(k)]))))
+            out.append((s1, s1.alloc(HList(items=[atom(f"wrapped{i}", False, tainted(line), levels_of(line)) for i in range(k)]))))
         return out
 
     I.specs[("fn", id(textwrap.wrap))] = wrap
@@ -973,9 +985,10 @@ def _nonneg(st):
     return n
 
 
-def kind_atom(name, kind):
+def kind_atom(name, kind, track=False):
     """'M' a Markup value (trusted), 'P' a plain caller-supplied string"""
-    return atom(name, kind == "M", kind == "P")
+    # the text of a Markup value is, by definition, already in its escaped form (level 1)
+    return atom(name, kind == "M", kind == "P", ([1] if kind == "M" else [0]) if track else ())
 
 
 MARKER = {"s": "<s>", "width": "<w>", "end": "<e>", "wrapstring": "<ws>", "old": "<s>", "new": "<n>", "d": "<d>", "arg": "<a%d>", "item": "<i%d>"}
@@ -999,7 +1012,7 @@ class MarkupArgsVC(VC):
         if f == "indent":
             self.flags = {"first": sym("first", "bool"), "blank": sym("blank", "bool")}
             width = 4 if c["width"] == "int" else kind_atom("width", c["width"])
-            return [kind_atom("s", c["s"]), width, self.flags["first"], self.flags["blank"]], {}
+            return [kind_atom("s", c["s"], track=True), width, self.flags["first"], self.flags["blank"]], {}
         if f == "truncate":
             self.flags = {"killwords": sym("killwords", "bool")}
             return [env, kind_atom("s", c["s"]), 10, self.flags["killwords"], kind_atom("end", c["end"]), 0], {}
